@@ -35,7 +35,12 @@ def leafMeta? (d i sh : Sexp) : Option LeafMeta := do
 
 def node? : Sexp → Option (List String × NodeMeta)
   | .list [p, .list b, n, d, l] => do
-    pure (← path? p, ⟨← nats? b, ← optNames? n, ← optDev? d, ← bool? l⟩)
+    pure (← path? p, ⟨← nats? b, ← optNames? n, ← optDev? d, ← bool? l, []⟩)
+  | .list [p, .list b, n, d, l, .list nts] => do
+    let nts ← nts.mapM fun x => match x with
+      | Sexp.list [Sexp.atom k, Sexp.atom v] => some (k, v)
+      | _ => none
+    pure (← path? p, ⟨← nats? b, ← optNames? n, ← optDev? d, ← bool? l, nts⟩)
   | _ => none
 
 def entry? : Sexp → Option Entry
@@ -54,6 +59,8 @@ def op? : Sexp → Option Op
   | .list [.atom "rename", a, b] => do pure (.rename (← path? a) (← path? b))
   | .list [.atom "reduce"] => some .reduce
   | .list (.atom "reduce" :: _) => some .reduce
+  | .list [.atom "setnt", p, .atom k, .atom v] => do pure (.setNonTensor (← path? p) k v)
+  | .list [.atom "delnt", p, .atom k] => do pure (.delNonTensor (← path? p) k)
   | .list [.atom "swap", a, b] => do pure (.swap (← path? a) (← path? b))
   | .list (.atom "assign" :: a :: b :: _) => do pure (.assign (← path? a) (← path? b))
   | _ => none
@@ -64,7 +71,8 @@ def nodeSx (p : List String × NodeMeta) : Sexp :=
   .list [pathSx p.1, ofNats p.2.batch,
     (match p.2.names with | none => .atom "none" | some l => .list (l.map .atom)),
     (match p.2.device with | none => .atom "none" | some d => .atom d),
-    .atom (if p.2.locked then "true" else "false")]
+    .atom (if p.2.locked then "true" else "false"),
+    .list (p.2.nts.map fun q => .list [.atom q.1, .atom q.2])]
 
 def obsSx (o : Obs) : Sexp :=
   .list [.list (o.nodes.map nodeSx),
